@@ -19,7 +19,7 @@ LEVEL_NOTE = 'Trusted: Coq kernel; hand model of registers/core.c (correspondenc
 
 def gen(rng, tier):
     big = tier == 'thorough'
-    for it in range(2000 if big else 320):
+    for it in range(2000 if big else 200):
         tab = family_table(rng)
         for tries in range(5):
             if tab.entries:
